@@ -42,6 +42,7 @@ def _geoms(tier):
         out.append(dict(spb=8, W=3, cut=0, extra=2, layout="bat_after_data", flen=511, at=4094))
         out.append(dict(spb=8, W=3, cut=3, extra=0, layout="std", flen=512, at=16383))
         out.append(dict(spb=16, W=3, cut=0, extra=1, layout="hdr_after_bat", flen=512, at=65535))
+        out.append(dict(spb=8, W=3, cut=2, extra=0, layout="std", flen=512, at=262143))
         out.append(dict(spb=4096, W=3, cut=9, extra=0, layout="std", flen=512, big=True))
         # BAT entries around 2^31 and near 2^32 (a dynamic disk file may grow to 2040 GiB)
         out.append(dict(spb=4096, W=3, cut=0, extra=1, layout="std", flen=512, big=True, base=(1 << 31) - 2 * 4097 - 5))
